@@ -52,6 +52,8 @@ type Task struct {
 
 	PanicVal   string
 	PanicStack string
+
+	prio int // PCT priority
 }
 
 // Panic describes a panic that escaped a task.
@@ -81,6 +83,11 @@ type Config struct {
 	// fault at the granularity of one goroutine (loaded machine, GC pause).
 	StarvePermille int
 	StarveMax      time.Duration
+	// PCTDepth > 0 switches the scheduler to probabilistic concurrency testing: every task gets
+	// a random priority when it is spawned, the enabled task with the highest priority runs, and
+	// at PCTDepth randomly chosen steps the running task is demoted below all others. Good at
+	// ordering bugs that need one task to be starved while others make progress.
+	PCTDepth int
 }
 
 // Sim is one simulated execution.
@@ -99,6 +106,9 @@ type Sim struct {
 	events   eventHeap
 	evseq    uint64
 	timerSeq uint64
+
+	pctPoints map[int]bool
+	pctLow    int
 
 	abort    chan struct{}
 	aborting atomic.Bool
@@ -471,6 +481,9 @@ func (s *Sim) spawn(name, site string, lib bool, fn func()) *Task {
 	}
 	t := &Task{ID: len(s.tasks), Name: name, SpawnSite: site, Lib: lib, Parent: parent, wake: make(chan struct{}, 1), state: tsNew, site: "start"}
 	s.tasks = append(s.tasks, t)
+	if s.cfg.PCTDepth > 0 {
+		t.prio = 1 + s.Dec.Choose("pct.prio", 1<<16)
+	}
 	s.Stats.TasksSpawned++
 	if lib {
 		s.Stats.LibTasks++
@@ -787,7 +800,30 @@ func (s *Sim) Run(root func()) {
 		if len(en) > 1 {
 			s.Stats.MultiEnabled++
 			s.Stats.Decisions++
-			idx = s.Dec.ChooseBiased("sched", len(en), s.cfg.StickyPermille)
+			if s.cfg.PCTDepth > 0 {
+				if s.pctPoints == nil {
+					s.pctPoints = map[int]bool{}
+					for i := 0; i < s.cfg.PCTDepth; i++ {
+						s.pctPoints[s.Dec.Choose("pct.cp", 3000)] = true
+					}
+				}
+				if s.pctPoints[s.steps] && s.last != nil {
+					s.pctLow--
+					s.last.prio = s.pctLow // demoted below everybody
+				}
+				// due events against tasks: a coin; among tasks: the highest priority
+				if ntasks == 0 || len(due) > 0 && s.Dec.Choose("pct.ev", 2) == 1 {
+					idx = ntasks + s.Dec.Choose("pct.evpick", len(en)-ntasks)
+				} else {
+					for i := 1; i < ntasks; i++ {
+						if en[i].task.prio > en[idx].task.prio || en[i].task.prio == en[idx].task.prio && en[i].task.ID < en[idx].task.ID {
+							idx = i
+						}
+					}
+				}
+			} else {
+				idx = s.Dec.ChooseBiased("sched", len(en), s.cfg.StickyPermille)
+			}
 		}
 		c := en[idx]
 		s.steps++
